@@ -170,7 +170,7 @@ CONFIG = {
         "kernel file-system semantics are modelled, not verified: rename(2) is atomic, a completed system call's effect survives the death of the process (page cache), a process killed at the entry of a system call has not executed it; power loss / fsync is outside the property",
         "store configuration: AutoSaveIndex is a parameter of the model (autosave): every positive theorem is stated for the default true; for false the property is refuted (C10_crash_safe_refuted_autosave_off) and recorded as known finding autosave-off-index-dangling; scripts with AutoSaveIndex off are generated and compared with the model, the oracle judges them against the tag map of the last SaveIndex. AutoGC on or off (also on the plain universe). Delete with AutoGC and GC are modelled as one call that performs a LIST of primitive operations in a row (plain deletes; Forget = drop digest references outside the live set + saveIndex): which nodes a cascade or a sweep visits, and in which order, is C09's subject -- C10_crash_safe_composite holds for every list, the harness reads the list off the recorded run (unlink order); C10_gc_crash_safe states GC with bare removals under the explicit hypothesis 'no swept blob is live or carries a reference name'. Go's map order makes some cascades nondeterministic: a kill run whose order differs from the recorded one is judged by the oracle only (counted cascade-order-differs-unjudged, floor 10 %)",
         "ground truth of scripts with GC / AutoGC: the blob set, tag map and index entry set before and after the interrupted call are observed on disk (killed before its first system call / completed run); on the universe with referrers an independent reference (mark phase of GC, survival of everything a tagged manifest reaches, tags of other blobs untouched) judges the completed call (gc-removed-live, gc-kept-garbage, gc-changed-tags, cascade-removed-tag, cascade-removed-live); plain scripts use the generator's simulator (blobs, tags, index entries incl. digest-only ones)",
-        "concurrency model (Model/OciCrashConc.v): temporaries are thread-private (unique random names; C10_no_in_place_write), Storage.Push of a target that appeared meanwhile is the same rename (identical verified bytes), the resolver maps are updated atomically (their mutexes), saveIndex = snapshot + write + rename under indexLock; Delete and GC take the write lock and are sequential. C10_conc_tags_origin proves (and the stream's oracle checks) that every reference on disk was there before or is set by a concurrent Tag. The two models are cross-checked on every generated final call (a call scheduled alone to completion in the concurrent model must leave the same directory and resolver as the sequential operation: CONC-MODEL-DIFFERS otherwise) -- bounded validation, not a refinement theorem",
+        "concurrency model (Model/OciCrashConc.v): temporaries are thread-private (unique random names; C10_no_in_place_write), Storage.Push of a target that appeared meanwhile is the same rename (identical verified bytes), the resolver maps are updated atomically (their mutexes), saveIndex = snapshot + write + rename under indexLock; Delete and GC take the write lock and are sequential. C10_conc_tags_origin proves (and the stream's oracle checks) that every reference on disk was there before or is set by a concurrent Tag. The two models are cross-checked on every generated final call (a call scheduled alone to completion in the concurrent model must leave the same directory and resolver as the sequential operation: CONC-MODEL-DIFFERS otherwise), and C10_conc_alone_refines proves that agreement for every call and state",
         "coverage floors (harness exits non-zero = layer R failure): concurrent kills, kills, earlier crashes, GC/init/reopen/cascade finals, cuts inside multi-write pushes, AutoSaveIndex-off scripts; more than 5 % of the injected kills missing their window or more than 10 % unjudged kill cases fail the run",
         "digest-and-size verification (content.NewVerifyReader, SHA-256) is the Section variable H: a content c matches the name d iff H c = d; no property of H is assumed",
         "encoding/json of index.json / oci-layout is abstracted: a file holds the marshalled entry list as one write unit and parses back to it; Go's map iteration order in saveIndex is the Section variable shuffle with hypothesis In e (shuffle c l) <-> In e l",
